@@ -229,6 +229,8 @@ def const_number(node, consts=None):
                 return a / b
         if isinstance(node, ast.Name) and consts and node.id in consts:
             return consts[node.id]
+        if isinstance(node, ast.Attribute) and consts and src(node) in consts:
+            return consts[src(node)]
         if isinstance(node, ast.Call) and isinstance(node.func, ast.Name) and node.func.id == 'len' and len(node.args) == 1:
             a = node.args[0]
             if isinstance(a, ast.Constant) and isinstance(a.value, str):
@@ -240,9 +242,31 @@ def const_number(node, consts=None):
     return None
 
 
-def module_consts(module):
-    """{name: Fraction} for module-level numeric constants (and 'len:NAME' for string constants)."""
+def module_consts(module, model=None, _depth=0):
+    """{name: Fraction} for module-level numeric constants (and 'len:NAME' for string constants); with ``model`` also the
+    constants this module imports from other package modules (``from .utils import LIMIT`` / ``utils.LIMIT``)."""
     out = {}
+    if model is not None and _depth < 2:
+        for alias, imp in module.imports.items():
+            if imp[0] == 'attr':
+                tm = model.modules.get(imp[1])
+                if tm is not None:
+                    sub = module_consts(tm, model, _depth + 1)
+                    if imp[2] in sub:
+                        out[alias] = sub[imp[2]]
+                    if ('len:' + imp[2]) in sub:
+                        out['len:' + alias] = sub['len:' + imp[2]]
+                tm2 = model.modules.get(imp[1] + '.' + imp[2])
+                if tm2 is not None:
+                    for kk, vv in module_consts(tm2, model, _depth + 1).items():
+                        if not kk.startswith('len:'):
+                            out['%s.%s' % (alias, kk)] = vv
+            elif imp[0] == 'module':
+                tm = model.modules.get(imp[1])
+                if tm is not None:
+                    for kk, vv in module_consts(tm, model, _depth + 1).items():
+                        if not kk.startswith('len:'):
+                            out['%s.%s' % (alias, kk)] = vv
     for _ in range(3):
         for name, node in module.constants.items():
             if module.assign_counts.get(name, 0) != 1:
